@@ -57,7 +57,8 @@ def value_text(v, i):
 def decl(v, name, i):
     pre = v.get("pre", "none")
     typ = v.get("type", "Real")
-    return "  %s%s %s%s;" % ("" if pre == "none" else pre + " ", typ, name, value_text(v, i))
+    caus = v.get("caus", "")
+    return "  %s%s%s %s%s;" % ("" if pre == "none" else pre + " ", caus + " " if caus else "", typ, name, value_text(v, i))
 
 
 def render(prog, extra_decls=(), eq_texts=None):
